@@ -30,10 +30,10 @@ theorem mul_meta (m1 m2 : Obj) (ld : List Nat) (t : Trunc) (hb : bcast m1.lead m
     ∧ (m1.md.trunc = none → m2.md.trunc = none → Lop = L1 + L2) := by
   intro L1 L2 Lop
   refine ⟨?_, ?_, ?_⟩
-  · have h := Lemmas.Modes.mulCore_ok m1 m1 m2 none ld hb
+  · have h := Lemmas.Modes.mulCore_ok m1 m1 m2 none ld none hb rfl
     simp only [arrayUfunc, Lemmas.Modes.selfOf_first, UFunc.passthrough, UFunc.allowed]
     exact h
-  · exact Lemmas.Modes.mulCore_ok m1 m1 m2 (some t) ld hb
+  · exact Lemmas.Modes.mulCore_ok m1 m1 m2 (some t) ld none hb rfl
   · intro h1 h2
     show max _ _ = _
     rw [h1, h2]
@@ -57,6 +57,62 @@ theorem mul_spellings_agree (m1 m2 : Obj) :
     rw [h, Lemmas.Modes.mulCore_nobcast _ _ _ _ _ hb]
 
 example : ∃ m1 m2 : Obj, bcast m1.lead m2.lead = none := ⟨⟨⟨0, 1, none⟩, [2], 4⟩, ⟨⟨0, 1, none⟩, [3], 4⟩, by decide⟩
+
+/-- `np.multiply(f, g, out=o)` and `f *= g` with an output of exactly the product's shape return the same Modes (a
+    view of `o`) as the call without `out`; a Modes held in `out` receives the product's metadata. -/
+theorem mul_out_outcome (m1 m2 : Obj) (ld : List Nat) (out : Operand) (hb : bcast m1.lead m2.lead = some ld) :
+    let L := productEllMax m1 m2 none
+    let mt : Meta := ⟨m1.md.spin + m2.md.spin, L, m1.md.trunc⟩
+    out.shape = ld ++ [(Ysize 0 L).toNat] →
+      arrayUfunc { uf := .multiply, args := [.modes m1, .modes m2], out := some out }
+        = .modes ⟨mt, ld, (Ysize 0 L).toNat⟩ (if out.isModes then some mt else none) := by
+  intro L mt ho
+  have ho' : outShapeOk (ld ++ [(Ysize 0 L).toNat]) (some out) = true := by simp [outShapeOk, ho]
+  have h := Lemmas.Modes.mulCore_ok m1 m1 m2 none ld (some out) hb ho'
+  simp only [arrayUfunc, Lemmas.Modes.selfOf_first, UFunc.passthrough, UFunc.allowed]
+  rw [h]
+  cases out <;> rfl
+
+example : ∃ (m1 m2 : Obj) (ld : List Nat) (out : Operand), bcast m1.lead m2.lead = some ld
+    ∧ out.shape = ld ++ [(Ysize 0 (productEllMax m1 m2 none)).toNat] :=
+  ⟨⟨⟨0, 1, none⟩, [], 4⟩, ⟨⟨0, 0, none⟩, [], 1⟩, [], .modes ⟨⟨0, 1, none⟩, [], 4⟩, by decide⟩
+
+/-- An output of any other shape is rejected with ValueError before anything is written — in particular
+    `f *= g` whenever the product needs a different number of modes than `f` holds (formerly out-of-bounds writes). -/
+theorem mul_out_wrong_shape_rejected (m1 m2 : Obj) (ld : List Nat) (out : Operand)
+    (hb : bcast m1.lead m2.lead = some ld)
+    (ho : out.shape ≠ ld ++ [(Ysize 0 (productEllMax m1 m2 none)).toNat]) :
+    arrayUfunc { uf := .multiply, args := [.modes m1, .modes m2], out := some out } = .err .valueError
+    ∧ (out = .modes m1 → inplaceOp .mul (.modes m1) (.modes m2) = .err .valueError) := by
+  have ho' : outShapeOk (ld ++ [(Ysize 0 (productEllMax m1 m2 none)).toNat]) (some out) = false := by
+    simp [outShapeOk, ho]
+  have h := Lemmas.Modes.mulCore_badout m1 m1 m2 none ld (some out) hb ho'
+  have e : arrayUfunc { uf := .multiply, args := [.modes m1, .modes m2], out := some out } = .err .valueError := by
+    simp only [arrayUfunc, Lemmas.Modes.selfOf_first, UFunc.passthrough, UFunc.allowed]
+    exact h
+  refine ⟨e, ?_⟩
+  intro hout
+  subst hout
+  exact e
+
+example : ∃ (m1 m2 : Obj) (ld : List Nat) (out : Operand), bcast m1.lead m2.lead = some ld
+    ∧ out.shape ≠ ld ++ [(Ysize 0 (productEllMax m1 m2 none)).toNat] ∧ out = .modes m1 :=
+  ⟨⟨⟨0, 1, none⟩, [], 4⟩, ⟨⟨0, 2, none⟩, [], 9⟩, [], .modes ⟨⟨0, 1, none⟩, [], 4⟩, by decide⟩
+
+/-- The entries: with `out=` (any buffer `bo`, whatever it held before, also when it is an operand's buffer, as in
+    `f *= g`) the output row is exactly the row the call without `out` accumulates in a fresh array of zeros from
+    the operands' content before the call; no other buffer is changed. -/
+theorem mul_out_overwrites {β : Type} (add : β → β → β) (val : (Nat → β) → (Nat → β) → Term → β) (zero : β)
+    (L1 L2 L : Int) (mem : Nat → Row β) (b1 b2 fresh bo : Nat) :
+    (mulEntries add val zero L1 L2 L mem b1 b2 fresh (some bo)).1 bo
+      = (mulEntries add val zero L1 L2 L mem b1 b2 fresh none).1 fresh
+    ∧ (mulEntries add val zero L1 L2 L mem b1 b2 fresh (some bo)).2 = bo
+    ∧ (∀ i, i ≠ bo → (mulEntries add val zero L1 L2 L mem b1 b2 fresh (some bo)).1 i = mem i)
+    ∧ (mulEntries add val zero L1 L2 L mem b1 b2 fresh none).1 fresh
+        = accumulate add (val (mem b1).get (mem b2).get) (terms L1 L2 L) ⟨fun _ => zero⟩ := by
+  obtain ⟨a, b, c⟩ := Lemmas.Modes.mulEntries_out add val zero L1 L2 L mem b1 b2 fresh bo
+  refine ⟨a, b, c, ?_⟩
+  simp [mulEntries]
 
 /-- Multiplying by a scalar or by an array that broadcasts against the leading shape (no more dimensions than
     it): spin weight, `ell_max`, truncator and the mode axis are kept, in every spelling and on either side. -/
